@@ -15,6 +15,7 @@ the final values written through `&mut` arguments.
 import glob
 import os
 import re
+import time
 
 import z3
 
@@ -641,7 +642,9 @@ class Executor:
                     nm = name[6:]
                     parts = [p for p in nm.split("::") if not p.startswith("<impl at") and " " not in p]
                     for k in (1, 2, 3):
-                        self._const_by_tail.setdefault("::".join(parts[-k:]), []).append(fl[0])
+                        lst = self._const_by_tail.setdefault("::".join(parts[-k:]), [])
+                        if not any(x is fl[0] for x in lst):
+                            lst.append(fl[0])
         key = s.split(" ")[0]
         if key in self._const_cache:
             return self._const_cache[key]
@@ -883,7 +886,7 @@ class Executor:
             return ("model", "Iterator::Iter::next")
         if re.match(r"^Iterator::\w+::(nth|count)$", norm):
             return ("model", "Iterator::Iter::" + norm.rsplit("::", 1)[1])
-        if re.match(r"^Iterator::\w+::(find_map|try_for_each|any|all|for_each)$", norm):
+        if re.match(r"^Iterator::\w+::(find_map|try_for_each|any|all|for_each|find|position)$", norm):
             return ("model", "Iterator::Iter::fold-like")
         if re.match(r"^Iterator::\w+::(rev|cloned|copied|enumerate)$", norm):
             return ("model", "Iterator::adaptor::" + norm.rsplit("::", 1)[1])
@@ -942,6 +945,7 @@ class Executor:
             self.solver.add(c)
         self.results = []
         work = [st]
+        self._deadline = time.time() + float(os.environ.get("VERIF_E3_RUN_BUDGET", "300"))
         try:
             return self._run_loop(work)
         finally:
@@ -953,6 +957,8 @@ class Executor:
             s = work.pop()
             if self.stats["paths"] >= self.max_paths:
                 raise Inconclusive("path budget exhausted")
+            if getattr(self, "_deadline", None) and time.time() > self._deadline and not getattr(s, "stop_at", None):
+                raise Inconclusive("time budget of one symbolic run exhausted (%d paths so far)" % self.stats["paths"])
             try:
                 self.step_until_fork(s, work)
             except Inconclusive as e:
@@ -1824,10 +1830,12 @@ def m_iter_foldlike(ex, state, frame, dest, args, ret_block, work, callee):
     if not isinstance(it, (IterS, IterL, FMap, FlatMap)):
         raise Inconclusive("%s over %r" % (which, it))
     unit = Agg("tuple", None, None, [])
-    end_value = {"find_map": Agg("adt", "Option", "None", []), "try_for_each": Agg("adt", "Result", "Ok", [unit]), "any": False, "all": True, "for_each": unit}[which]
+    end_value = {"find_map": Agg("adt", "Option", "None", []), "try_for_each": Agg("adt", "Result", "Ok", [unit]), "any": False, "all": True, "for_each": unit,
+                 "find": Agg("adt", "Option", "None", []), "position": Agg("adt", "Option", "None", [])}[which]
     cur = [(state.clone(), it)]
     done = []  # (state, value, iterator afterwards)
-    for step in range(ex.slice_bound + 8):
+    bound = (len(it.items) + 2) if isinstance(it, IterL) else ex.slice_bound + 8
+    for step in range(bound):
         nxt = []
         for st, itv in cur:
             for st1, opt, it1 in iter_next_alts(ex, st, itv):
@@ -1860,18 +1868,19 @@ def m_iter_foldlike(ex, state, frame, dest, args, ret_block, work, callee):
                                         done.append((st3, Agg("adt", "Result", "Err", [Opaque(("err-of", val.origin if isinstance(val, Opaque) else pstr(val.path)), None)]), it1))
                         else:
                             raise Inconclusive("try_for_each closure returned %r" % (val,))
-                    else:  # any / all
+                    else:  # any / all / find / position
                         b = ex.scalar_of(st2, val, "bool")
-                        stop_on = which == "any"
+                        stop_on = which != "all"
+                        stop_val = {"any": True, "all": False, "find": Agg("adt", "Option", "Some", [opt.fields[0]]), "position": Agg("adt", "Option", "Some", [step])}[which]
                         if isinstance(b, bool):
-                            (done.append((st2, stop_on, it1)) if b == stop_on else nxt.append((st2, it1)))
+                            (done.append((st2, stop_val, it1)) if b == stop_on else nxt.append((st2, it1)))
                         else:
                             for bv in (True, False):
                                 c = b if bv else z3.Not(b)
                                 if ex.feasible(st2, c):
                                     st3 = st2.clone()
                                     st3.pc.append(c)
-                                    (done.append((st3, stop_on, it1)) if bv == stop_on else nxt.append((st3, it1)))
+                                    (done.append((st3, stop_val, it1)) if bv == stop_on else nxt.append((st3, it1)))
         cur = nxt
         if not cur:
             break
